@@ -345,6 +345,13 @@ func record(prefix string, req *reqgen.Request, c *reqgen.Config, v *reqgen.Verd
 	if extra != "" {
 		hx.Class(extra)
 	}
+	if c.Kind == reqgen.HTTP && c.HasProtocol && c.ProtoHelper != reqgen.ProtoClosure {
+		size := "<=16"
+		if len(c.Protocols) > 16 {
+			size = ">16"
+		}
+		hx.Class(fmt.Sprintf("%shttp/Protocol=ws.%v/accept-set%s", prefix, c.ProtoHelper, size))
+	}
 	if c.Kind == reqgen.Raw && c.ProtoCustom != reqgen.ProtoCustomNone {
 		hx.Class(fmt.Sprintf("%sraw/ProtocolCustom=%v/Protocol-set=%v", prefix, c.ProtoCustom, c.HasProtocol))
 	}
